@@ -142,6 +142,14 @@ impl<'b, B: BumpAllocatorTypedScope<'b>> AnyS<'b, B> {
             AnyS::Str(b) => b,
         }
     }
+    /// Capacity, for the kinds that have one.
+    fn cap(&self) -> Option<usize> {
+        match self {
+            AnyS::Boxed(_) => None,
+            AnyS::Fixed(b) => Some(b.capacity()),
+            AnyS::Str(b) => Some(b.capacity()),
+        }
+    }
 }
 
 fn new_string<'b, B: BumpAllocatorTypedScope<'b> + Clone>(ctx: &mut Ctx, bump: &B, kind: u64, op: &Op) -> Option<(AnyS<'b, B>, String)> {
@@ -301,6 +309,8 @@ fn new_string<'b, B: BumpAllocatorTypedScope<'b> + Clone>(ctx: &mut Ctx, bump: &
 pub fn drive_shared<'b, B: BumpAllocatorTypedScope<'b> + Clone>(ctx: &mut Ctx, bump: &B, kind: u64) {
     let mut vs: Vec<AnyS<'b, B>> = Vec::new();
     let mut ms: Vec<String> = Vec::new();
+    // which strings are the product of a split (C16 only judges those)
+    let mut parts: Vec<bool> = Vec::new();
     while let Some(op) = ctx.next_op() {
         if ctx.verbose {
             eprintln!("[{}] {} | {:?}", ctx.cur_op, sim::trace::op_text(&op, OP_NAMES), ms);
@@ -314,6 +324,7 @@ pub fn drive_shared<'b, B: BumpAllocatorTypedScope<'b> + Clone>(ctx: &mut Ctx, b
                         }
                         vs.push(v);
                         ms.push(m);
+                        parts.push(false);
                     }
                 }
             }
@@ -322,6 +333,7 @@ pub fn drive_shared<'b, B: BumpAllocatorTypedScope<'b> + Clone>(ctx: &mut Ctx, b
                 if let Some((v, m)) = new_string(ctx, bump, kind, &Op::new(K_NEW, &[if kind == 1 { 0 } else { 2 }, 7, 11])) {
                     vs.push(v);
                     ms.push(m);
+                    parts.push(false);
                 }
             }
             k if k <= LAST_COMMON => {
@@ -339,6 +351,7 @@ pub fn drive_shared<'b, B: BumpAllocatorTypedScope<'b> + Clone>(ctx: &mut Ctx, b
                 }
                 let r = range_arg(op.a[0], op.a[1], ms[t].len());
                 let valid = valid_range(r, &ms[t]);
+                let cap_before = vs[t].cap();
                 let out = ctx.call(&op, || {
                     Ok(match &mut vs[t] {
                         AnyS::Boxed(v) => AnyS::Boxed(v.split_off(r)),
@@ -352,10 +365,23 @@ pub fn drive_shared<'b, B: BumpAllocatorTypedScope<'b> + Clone>(ctx: &mut Ctx, b
                         ms[t].replace_range(s..e, "");
                         if part.s() != pm || vs[t].s() != ms[t] {
                             ctx.viol("C09/split-contents", format!("split_off({s}..{e}): got {:?} + {:?}, expected {:?} + {:?}", vs[t].s(), part.s(), ms[t], pm));
+                            ctx.viol("C16/split-contents", format!("split_off({s}..{e}): got {:?} + {:?}, expected {:?} + {:?}", vs[t].s(), part.s(), ms[t], pm));
+                        }
+                        if let (Some(c0), Some(c1), Some(c2)) = (cap_before, vs[t].cap(), part.cap()) {
+                            if c1 + c2 != c0 {
+                                ctx.viol("C16/split-capacity", format!("split_off({s}..{e}) of a string with capacity {c0} left capacities {c1} + {c2}"));
+                            }
+                            if c1 < vs[t].s().len() || c2 < part.s().len() {
+                                ctx.viol("C16/split-capacity", format!("split_off({s}..{e}): a part has capacity below its length ({c1} < {} or {c2} < {})", vs[t].s().len(), part.s().len()));
+                            }
                         }
                         ctx.stats.probe("op.split_off_ok");
+                        parts[t] = true;
+                        ms[t] = vs[t].s().to_string();
+                        let pm = part.s().to_string();
                         vs.push(part);
                         ms.push(pm);
+                        parts.push(true);
                     }
                     (Outcome::Ok(part), None) => {
                         ctx.viol("C09/panic-mismatch", format!("split_off with an out-of-range or non-boundary range {:?} on {:?} returned", r, ms[t]));
@@ -390,6 +416,7 @@ pub fn drive_shared<'b, B: BumpAllocatorTypedScope<'b> + Clone>(ctx: &mut Ctx, b
                 let t = op.a[0] as usize % vs.len();
                 let v = vs.swap_remove(t);
                 let m = ms.swap_remove(t);
+                let was_part = parts.swap_remove(t);
                 let b = bump.clone();
                 let nv = match v {
                     AnyS::Str(s) => match op.a[1] % 3 {
@@ -424,11 +451,13 @@ pub fn drive_shared<'b, B: BumpAllocatorTypedScope<'b> + Clone>(ctx: &mut Ctx, b
                 }
                 vs.push(nv);
                 ms.push(m);
+                parts.push(was_part);
             }
             K_FINISH => {
                 let t = op.a[0] as usize % vs.len();
                 let v = vs.swap_remove(t);
                 let m = ms.swap_remove(t);
+                parts.swap_remove(t);
                 if let AnyS::Str(s) = v {
                     let try_ = !ctx.panicking_ok(&op) || op.a[1] & 1 == 1;
                     let r = ctx.call(&op, || if try_ { s.try_into_cstr().map_err(drop) } else { Ok(s.into_cstr()) });
@@ -442,12 +471,17 @@ pub fn drive_shared<'b, B: BumpAllocatorTypedScope<'b> + Clone>(ctx: &mut Ctx, b
                 let t = op.a[0] as usize % vs.len();
                 vs.swap_remove(t);
                 ms.swap_remove(t);
+                parts.swap_remove(t);
             }
             _ => {}
         }
-        for (v, m) in vs.iter().zip(ms.iter()) {
+        assert_eq!(parts.len(), vs.len());
+        for (i, (v, m)) in vs.iter().zip(ms.iter()).enumerate() {
             if v.s() != m {
                 ctx.viol("C09/sibling-changed", format!("a string that was not touched changed: {:?} vs {:?}", v.s(), m));
+                if parts[i] {
+                    ctx.viol("C16/part-changed-by-sibling", format!("a part of a split that was not touched changed: {:?} vs {:?}", v.s(), m));
+                }
                 break;
             }
             if std::str::from_utf8(v.s().as_bytes()).is_err() {
